@@ -185,6 +185,8 @@ mod tileset;
 pub(crate) mod user_data;
 #[cfg(feature = "utils")]
 pub mod util;
+#[cfg(asefile_verif)]
+pub mod verif;
 
 /// A specialized `Result` type for Aseprite parsing functions.
 pub type Result<T> = std::result::Result<T, AsepriteParseError>;
